@@ -511,7 +511,12 @@ def _derive(w, op, prop):
         newm = m.take_cols(texts, values)
         where = "table #%d cols[%r]" % (tid, texts)
         arg = " ".join(texts) if style == "str" else list(texts)
-        val, exc = call(lambda: t.cols[arg])
+        if style == "lowlevel":
+            # the low-level entry point behind t.cols[...] (examples/table_benchmark.py calls it directly), given a list
+            where = "table #%d _select_cols(%r)" % (tid, texts)
+            val, exc = call(lambda: t._select_cols(arg))
+        else:
+            val, exc = call(lambda: t.cols[arg])
         newkinds = dict(w.kinds[tid])
         for tx in values:
             dk = getattr(getattr(val, "_data", {}).get(tx, None), "dtype", None) if exc is None else None
